@@ -6,7 +6,6 @@ sys.path.insert(0, here)
 
 NA = {
     "C02": "whether the periodic-region search recognises every bonded single crystal as exactly one complete cluster depends on floating-point geometry (span metrics, angle/volume filters, adaptive breadth-first tracking) over all materials, orientations, seeds and noise; no clause of it is both necessary and decidable from the shape of the code, so static analysis does not apply (DESIGN.md section 6)",
-    "C18": "recognition of slabs / monolayers / adsorbates by the classifier is the same heuristic numeric search as C02; not decidable statically (the structural dispatch and guard clauses are claimed under C17) (DESIGN.md section 6)",
 }
 
 # pid -> (level category, level text, note, technique, design_ref, has_thorough)
